@@ -78,16 +78,24 @@ func mayBeRemovable(hi *Hist, bf *BarFacts) bool {
 	return false
 }
 
-// firstProbeBefore returns the log index of the first spy/fill event of the
-// cycle that produced frame k (or the write itself).
+// cycleFirstEvent returns the log index of the first event of the render
+// cycle that produced frame k: the terminal-size query that opens the cycle
+// on a terminal (the last one before the write: earlier cycles may have drawn
+// nothing and written nothing), else the first probe event after the previous
+// write, else the write itself.
 func cycleFirstEvent(hi *Hist, frames []*Frame, k int) int {
 	from := 0
 	if k > 0 {
 		from = frames[k-1].W.At + 1
 	}
+	for i := frames[k].W.At - 1; i >= from; i-- {
+		if hi.Log[i].Kind == h.EvTermSize {
+			return i
+		}
+	}
 	for i := from; i < frames[k].W.At; i++ {
 		switch hi.Log[i].Kind {
-		case h.EvSpy, h.EvFill, h.EvDecor, h.EvTermSize:
+		case h.EvSpy, h.EvFill, h.EvDecor:
 			return i
 		}
 	}
@@ -360,6 +368,8 @@ func judgeC03(hi *Hist) []*Violation {
 		switch {
 		case poppable(hi, bf):
 			// may or may not be in the last frame (C18 tracks pops)
+		case !bf.Sequential && len(bf.Succ) == 0:
+			// overlapping mutators: which Abort (drop or not) took effect is not determined
 		case removable(hi, bf):
 			if seen[bf.Idx] > 0 {
 				add("removed-bar-present", "bar %d is set to be removed but is still in the last frame: %s", bf.Idx, last)
